@@ -28,6 +28,7 @@ type c07Opts struct {
 	streams   []c07Stream
 	freeSmall int
 	callback  bool // server streams in callback mode
+	queueCap  uint32 // 0: the default (16)
 	respond   int  // server writes this many bytes back on stream 0 after reading everything (client reads them)
 }
 
@@ -47,7 +48,7 @@ func c07Body(o c07Opts) func() {
 			s.SetCallbacks(e.rc)
 			byID[s.id] = e
 		}
-		po := pairOpts{FreeSmall: o.freeSmall}
+		po := pairOpts{FreeSmall: o.freeSmall, QueueCap: o.queueCap}
 		if o.callback {
 			po.ListenCB = lcb
 		}
@@ -196,6 +197,9 @@ func TestVerif_C07(t *testing.T) {
 		// each land at any moment of the first one's (a wake-up parked behind a busy connection, then data on the socket)
 		mk(c07Opts{name: "fallback-stream-beside-lazy-shm-then-fallback", freeSmall: 2, streams: []c07Stream{{sizes: []int{100}}, {sizes: []int{5, 100}, close: true, lazy: true}}}, 1, 2),
 		mk(c07Opts{name: "callback-fallback-stream-beside-lazy-shm-then-fallback", callback: true, freeSmall: 2, streams: []c07Stream{{sizes: []int{100}}, {sizes: []int{5, 100}, lazy: true}}}, 2, 3),
+		// queue capacities that are not powers of two, several elements in the queue at once (three writers ahead of the consumer)
+		mk(c07Opts{name: "three-streams-queue-cap3", queueCap: 3, streams: []c07Stream{{sizes: []int{5}}, {sizes: []int{6}}, {sizes: []int{7}, close: true}}}, 1, 2),
+		mk(c07Opts{name: "callback-three-streams-queue-cap6", callback: true, queueCap: 6, streams: []c07Stream{{sizes: []int{5, 5}}, {sizes: []int{6, 6}}, {sizes: []int{7}}}}, 1, 2),
 		mk(c07Opts{name: "request-response", streams: []c07Stream{{sizes: []int{5}, close: true}}, respond: 6}, 1, 2),
 		mk(c07Opts{name: "callback-data-then-close", callback: true, streams: []c07Stream{{sizes: []int{5}, close: true}}}, 1, 2),
 		mk(c07Opts{name: "callback-two-streams", callback: true, freeSmall: 3, streams: []c07Stream{{sizes: []int{5, 60}}, {sizes: []int{7}}}}, 1, 2),
